@@ -28,6 +28,9 @@ type c02Params struct {
 	excKind  string // "", action, region
 	excKey   string // key of the action / any key of the region that gets the exception
 	excClass string
+	// prelude: before the mix, a full batch of calls that cannot be marshalled (gets without a
+	// row key) is queued; the client must report the error to those calls only and carry on
+	prelude bool
 }
 
 type c02Obs struct {
@@ -190,6 +193,23 @@ func c02Body(p c02Params, out *c02Obs) func() {
 			panic(err)
 		}
 		vrt.GoNamed("h:server", r.srv.Run)
+		if p.prelude {
+			var bad []hrpc.Call
+			for i := 0; i < p.cfg.QueueSize; i++ {
+				g, err := hrpc.NewGet(context.Background(), []byte("t"), nil)
+				if err != nil {
+					break
+				}
+				g.SetRegion(regA)
+				bad = append(bad, g)
+				r.rc.QueueRPC(g)
+			}
+			for _, g := range bad {
+				if res := vrt.Recv(g.ResultChan()); res.Error == nil {
+					out.errors = append(out.errors, "a get without a row key was reported as successful")
+				}
+			}
+		}
 		fin := make(chan int, n)
 		for i := range calls {
 			i := i
@@ -205,7 +225,7 @@ func c02Body(p c02Params, out *c02Obs) func() {
 		}
 		r.rc.Close()
 		vrt.Sleep(time.Minute)
-		out.errors = r.srv.Errors
+		out.errors = append(out.errors, r.srv.Errors...)
 		r.srv.Stop = true
 	}
 }
@@ -326,6 +346,19 @@ func c02Units(thorough bool) []*explore.Unit {
 					},
 				})
 			}
+		}
+	}
+	// after a batch that could not be sent (see prelude): batched mixes, both answer modes
+	for _, m := range mixes {
+		if m.cfg.QueueSize < 2 {
+			continue
+		}
+		for _, hold := range []bool{true, false} {
+			p := c02Params{mix: m.name, calls: m.calls, cfg: m.cfg, hold: hold, prelude: true}
+			out := &c02Obs{}
+			units = append(units, &explore.Unit{
+				Name: fmt.Sprintf("%s|hold=%v|after an unsendable batch", m.name, hold), Bound: bound,
+				Opt: vrt.Options{MaxSteps: 20000}, Body: c02Body(p, out), Check: c02Check(p, out)})
 		}
 	}
 	return units
